@@ -7,7 +7,7 @@ PROP = {
     "rule": "a case is non-trivial when n is odd, n >= 100, or the interval is not [-1,1]; distinct = hash of (n, a, b, orientation). Every order n = 1..64 (thorough: 1..512) is run "
             "on 6 interval kinds ([-1,1], [0,L], random, far from the origin with width down to 1e-3, straddling 0, offset up to 1e6) in both orientations; random orders 65..512 and "
             "a sample of orders 513..4000 (incl. 4000 and 2001); mismatched value/rule lengths in isolated children",
-    "floors": {"quick": {"cases": 1200, "distinct_nontrivial": 900, "ticks": {"GaussLegendre.newton": 100000},
+    "floors": {"quick": {"cases": 1200, "distinct_nontrivial": 990, "ticks": {"GaussLegendre.newton": 100000},
                          "clauses": {"nodes-strictly-increasing": 700, "reversed-nodes-strictly-decreasing": 300, "exact-on-legendre-basis-up-to-degree-2n-1": 50000,
                                      "exact-on-monomials-up-to-degree-2n-1": 20000, "nodes-vs-long-double-reference": 1100, "three-overloads-agree-bit-for-bit": 1200,
                                      "mismatched-lengths-terminate-with-diagnostic": 40}},
